@@ -286,6 +286,8 @@ func classify(r interface{}) string {
 }
 
 func executeSeq(tr *Trace) (*core.Result, error) {
+	core.SetMapSeed(core.SplitMix64(tr.Seed ^ 0x6b76))
+	defer core.ClearMapSeed()
 	// first pass for gas nodes whose limit is defined by a position in the program
 	need := false
 	for _, nd := range tr.Nodes {
